@@ -26,12 +26,13 @@ class DumpEffectOrder(Contract):
     """X.dump(path): whenever dump ends in TypeError/ValueError raised by validation (top level or inside a nested section
     writer), the destination has not been opened for writing -- so the file that was there is untouched."""
 
-    def __init__(self, src, T, cls, holder_cls):
+    def __init__(self, src, T, cls, holder_cls, main_variant=False):
         self.src, self.T = src, T
         self.cls = cls                  # class that DEFINES dump
         self.holder = holder_cls        # concrete class of the receiver
-        self.name = "productmd.%s.%s.dump" % cls
-        self.key = "io:%s.%s.dump" % cls
+        self.main_variant = main_variant    # TreeInfo.dump(path, main_variant=<any value>)
+        self.name = "productmd.%s.%s.dump" % cls + ("[main_variant given]" if main_variant else "")
+        self.key = "io:%s.%s.dump" % cls + (":mv" if main_variant else "")
 
     def setup(self, E):
         o = E.instantiate(self.holder)
@@ -40,15 +41,31 @@ class DumpEffectOrder(Contract):
             pass
         path = SV(sym.Val.VStr(z3.Const("arg.path", sym.S)))
         E.assume(Not(Or(sym.startswith(path, "http://"), sym.startswith(path, "https://"), sym.startswith(path, "ftp://"))))
-        return {"o": o, "path": path, "mark": len(E.path.effects)}
+        st = {"o": o, "path": path, "mark": len(E.path.effects)}
+        if self.main_variant:
+            st["mv"] = SV(z3.Const("arg.main_variant", sym.Val))
+            E.assume(concretise.wellformed(st["mv"]))
+            # the named variant may or may not be in the tree: lookups in the (abstract) variant container answer arbitrarily
+            def getitem(E_, o_, args, kwargs):
+                if E_.decide(E_.fresh("main_variant_in_tree", z3.BoolSort())):
+                    return E_.new_obj(("treeinfo", "Variant"))
+                raise PyRaise(ExcVal(KeyError, ("main_variant",)))
+            st["getitem"] = getitem
+        return st
 
     def call(self, E, st):
         o = st["o"]
         keys = [(self.holder, "validate"), (self.holder, "serialize")]
+        if self.main_variant:
+            keys.append((("treeinfo", "Variants"), "__getitem__"))
         saved = dict((k, E.summaries.get(k)) for k in keys)
         E.summaries[(self.holder, "validate")] = abstract_raiser("validate")
         E.summaries[(self.holder, "serialize")] = abstract_raiser("serialize")
+        if self.main_variant:
+            E.summaries[(("treeinfo", "Variants"), "__getitem__")] = st["getitem"]
         try:
+            if self.main_variant:
+                return E.call(E.getattr_(o, "dump"), [st["path"]], {"main_variant": st["mv"]})
             return E.call(E.getattr_(o, "dump"), [st["path"]])
         finally:
             for k, v in saved.items():
@@ -60,7 +77,8 @@ class DumpEffectOrder(Contract):
     def post(self, E, st, out):
         eff = E.path.effects[st["mark"]:]
         # any mode that creates or truncates the destination: w, a, x, +
-        opens = [i for i, e in enumerate(eff) if e[0] == "open" and any(m in e[2] for m in "wax+")]
+        # ... or any other call that changes the file system (unlink, rename, ...: the destination or a link to it may be gone)
+        opens = [i for i, e in enumerate(eff) if (e[0] == "open" and any(m in e[2] for m in "wax+")) or e[0] == "fs_modify"]
         errs = [i for i, e in enumerate(eff) if e[0] == "validation_error"]
         calls = [e[1] for e in eff if e[0] == "call"]
         if out.kind == "raise":
@@ -68,8 +86,9 @@ class DumpEffectOrder(Contract):
                     not (out.exc_cls in (TypeError, ValueError) and opens and errs and opens[0] < errs[0])}
         writes = [e for e in eff if e[0] == "write"]
         # (a top-level validate() call is not demanded: classes without _validate* methods lose nothing without it)
+        wopens = [i for i in opens if eff[i][0] == "open"]
         return {"serialises_before_writing": "serialize" in calls,
-                "writes_serialised_data_to_destination": len(opens) == 1 and len(writes) == 1 and writes[0][1] is eff[opens[0]][3]}
+                "writes_serialised_data_to_destination": len(wopens) == 1 and len(writes) == 1 and writes[0][1] is eff[wopens[0]][3]}
 
     def concretise(self, model, st):
         return None
@@ -84,9 +103,15 @@ class DumpEffectOrder(Contract):
             for seed in range(3):
                 obj = getattr(gen.G(self.src.mods, seed), kind)()
                 obj = obj[0] if isinstance(obj, tuple) else obj
+                n = 0
                 for desc, o, f, bad in corrupt.sites(kind, obj):
                     for idx in range(len(bad)):
-                        yield {"kind": kind, "seed": seed, "site": desc, "idx": idx, "existing": (idx + seed) % 2 == 0}
+                        n += 1
+                        if self.main_variant and kind != "treeinfo":
+                            continue
+                        # what is at the destination before the failing dump: a plain file, nothing, a symlink to a file, a hard-linked file
+                        yield {"kind": kind, "seed": seed, "site": desc, "idx": idx, "main_variant": self.main_variant,
+                               "existing": (True, False, "symlink", "hardlink")[(idx + seed + n) % 4 if n % 3 == 0 else (idx + seed) % 2]}
 
     def native_eval(self, inputs):
         import os
@@ -100,26 +125,45 @@ class DumpEffectOrder(Contract):
         try:
             obj.dumps()
             before = None
-            if inputs.get("existing", True):
-                obj.dump(path)
+            ex = inputs.get("existing", True)
+            other = os.path.join(d, "other")
+            if ex:
+                obj.dump(other if ex in ("symlink", "hardlink") else path)
+                if ex == "symlink":
+                    os.symlink(other, path)
+                elif ex == "hardlink":
+                    os.link(other, path)
                 before = open(path, "rb").read()
+            kw = {}
+            if inputs.get("main_variant"):
+                uids = sorted(obj.variants.variants)
+                if not uids:
+                    return ("skip", None), {}
+                kw = {"main_variant": uids[-1]}
             for desc, o, f, bad in corrupt.sites(kind, obj):
                 if desc == inputs["site"]:
                     setattr(o, f, bad[inputs["idx"]])
                     break
-            nat = native_call(obj.dump, path)
-            after = open(path, "rb").read() if os.path.exists(path) else None
+
+            def snapshot():
+                return (open(path, "rb").read() if os.path.exists(path) else None, os.path.islink(path),
+                        open(other, "rb").read() if os.path.exists(other) else None)
+            snap = snapshot()
+            nat = native_call(obj.dump, path, **kw)
             if nat[0] == "raise" and nat[1] in (TypeError, ValueError):
-                return nat, {"destination_not_opened_before_validation_failure": after == before}
+                return nat, {"destination_not_opened_before_validation_failure": snapshot() == snap}
             return nat, {}
         finally:
             import shutil
             shutil.rmtree(d, ignore_errors=True)
 
     def describe(self, inputs):
-        return "%s (generator seed %d) %s, then %s corrupted (bad value #%d) and dump(path) called" % (
-            inputs["kind"], inputs["seed"], "written to a file" if inputs.get("existing", True) else "with no file at the destination",
-            inputs["site"], inputs["idx"])
+        ex = inputs.get("existing", True)
+        return "%s (generator seed %d) %s, then %s corrupted (bad value #%d) and dump(path%s) called" % (
+            inputs["kind"], inputs["seed"], {True: "written to a file", False: "with no file at the destination",
+                                            "symlink": "written to a file the destination is a symlink to",
+                                            "hardlink": "written to a file the destination is a hard link of"}[ex],
+            inputs["site"], inputs["idx"], ", main_variant=<last top-level variant>" if inputs.get("main_variant") else "")
 
 
 class LoadsValidates(Contract):
@@ -194,4 +238,5 @@ def ast_clauses(run, src):
 def contracts(src, T):
     return [DumpEffectOrder(src, T, ("common", "MetadataBase"), ("composeinfo", "ComposeInfo")),
             DumpEffectOrder(src, T, ("treeinfo", "TreeInfo"), ("treeinfo", "TreeInfo")),
+            DumpEffectOrder(src, T, ("treeinfo", "TreeInfo"), ("treeinfo", "TreeInfo"), main_variant=True),
             LoadsValidates(src, T)]
